@@ -623,7 +623,9 @@ class Flow:
             self.events.append(ge)
         elif panics(th) or (el is not None and panics(el)):
             mac = macro_of(n) or 'panic'
-            self.events.append(Event('assert', n, fr.fn, ctx, stack, val=cf, extra=mac))
+            ae = Event('assert', n, fr.fn, ctx, stack, val=cf, extra=mac)
+            ae.pins = self.len_paths(fr, n['c'], ctx, stack)      # lengths / presences the assertion looks at
+            self.events.append(ae)
         c1 = ctx + (('if', cf, n, True),)
         r = self.ev(fr, th, c1, stack)
         if el is not None:
